@@ -297,8 +297,12 @@ class World:
         if n < 2:
             return None
         kind = self.r.weighted([(3, "soft"), (3, "mixed"), (1, "hard")])
+        undone = [p for p in self.sim.realgit("diff", "--name-only", "-z", "HEAD~1", "HEAD")[1].split("\0") if p]
         rc, _, _ = self.git("reset", f"--{kind}", "HEAD~1")
         self.trace.append((f"reset_{kind}", rc))
+        if rc == 0 and kind != "hard":
+            # the undone commit's attributions come back as bare line numbers (INITIAL), like after a partial commit
+            self.carried |= set(undone) | self.pending_ai
         if kind == "hard":
             self.tainted = True
         elif self.r.chance(3, 4):
